@@ -160,9 +160,22 @@ def run_one(cls, kind, op, arg, base_keys, good_key, good_val):
         out = ('raised', type(e).__name__)
     try:
         c = list(t.keys()) if is_set else list(t.items())
+        c = [c, bool(t), len(t), state_sig(t, {})]
     except Exception as e:          # noqa
         c = ('unreadable', type(e).__name__)
     return out, c
+
+
+def state_sig(x, memo):
+    """implementation-independent rendering of the whole serialized state"""
+    if isinstance(x, tuple):
+        return tuple(state_sig(i, memo) for i in x)
+    if hasattr(x, '__getstate__') and hasattr(x, '_p_oid'):
+        if id(x) in memo:
+            return ('ref', memo[id(x)])
+        memo[id(x)] = len(memo)
+        return (type(x).__name__.replace('Py', ''), state_sig(x.__getstate__(), memo))
+    return x
 
 
 def norm_val(v):
@@ -215,6 +228,7 @@ def compare(fam, kind, op, arg, size, ccl, pcl):
     diff = None
     detail = None
     want_c = base_keys if is_set else [(k, good_val) for k in base_keys]
+    cc1 = c1[0] if isinstance(c1, list) else c1
     if c != py:
         diff, detail = 'outcome', (c, py)
     elif o1[0] == 'ok' and op != 'update' and not (op in ('add', 'insert', 'has_key') and bool(o1[1]) == bool(o2[1])) \
@@ -223,8 +237,8 @@ def compare(fam, kind, op, arg, size, ccl, pcl):
     elif typed(c1) != typed(c2):
         diff, detail = 'contents', (typed(c1), typed(c2))
     elif o1[0] == 'raised' and op in ('setitem', 'setdefault', 'insert', 'update', 'add', 'setvalue', 'setdefault_value') \
-            and typed(c1) != typed(want_c):
-        diff, detail = 'rejected-write-changed', (typed(c1), typed(want_c))
+            and typed(cc1) != typed(want_c):
+        diff, detail = 'rejected-write-changed', (typed(cc1), typed(want_c))
     return info, diff, detail
 
 
